@@ -74,10 +74,32 @@ class LowerDimExpr:
 
     def _convert_op(self, name: str, operands: list[ir.Value]) -> ir.Value:
         if name == "floordiv":
+            # Python's // floors, ONNX Div on integers truncates toward zero.
+            # a - Mod(a, b) is an exact multiple of b (integer Mod with fmod=0
+            # follows the sign of the divisor, like Python's %), so dividing it
+            # is exact and equals floor(a / b) for every sign combination.
+            remainder = cast(
+                ir.Value,
+                self.ctx.builder.Mod(
+                    operands[0],
+                    operands[1],
+                    _outputs=[self.ctx.fresh_name("dimexpr_mod")],
+                ),
+            )
+            self._set_metadata(remainder)
+            exact = cast(
+                ir.Value,
+                self.ctx.builder.Sub(
+                    operands[0],
+                    remainder,
+                    _outputs=[self.ctx.fresh_name("dimexpr_sub")],
+                ),
+            )
+            self._set_metadata(exact)
             result = cast(
                 ir.Value,
                 self.ctx.builder.Div(
-                    operands[0],
+                    exact,
                     operands[1],
                     _outputs=[self.ctx.fresh_name("dimexpr_div")],
                 ),
@@ -121,8 +143,9 @@ class LowerDimExpr:
         return result_value
 
     def _lower_factor(self, factor: DimFactorWithPower) -> ir.Value:
-        if str(factor) in self.compute_cache:
-            return self.compute_cache[str(factor)]
+        factor_key = f"factor^power:{factor}"
+        if factor_key in self.compute_cache:
+            return self.compute_cache[factor_key]
 
         if factor[0].operation is None:
             var_name = factor[0].var
@@ -149,7 +172,7 @@ class LowerDimExpr:
             )
             self._set_metadata(result_value)
 
-        self.compute_cache[str(factor)] = result_value
+        self.compute_cache[factor_key] = result_value
         return result_value
 
     def _lower_term(self, term: DimTermLike) -> ir.Value:
@@ -176,8 +199,9 @@ class LowerDimExpr:
         return result_value
 
     def _lower_term_with_mult(self, term: DimTermWithCoeff) -> ir.Value:
-        if str(term) in self.compute_cache:
-            return self.compute_cache[str(term)]
+        term_key = f"term*coeff:{term}"
+        if term_key in self.compute_cache:
+            return self.compute_cache[term_key]
 
         if term[0].is_constant and str(term[0]) == "":
             result_value = self._get_scalar(term[1])
@@ -195,7 +219,7 @@ class LowerDimExpr:
                 )
                 self._set_metadata(result_value)
 
-        self.compute_cache[str(term)] = result_value
+        self.compute_cache[term_key] = result_value
         return result_value
 
     def _lower_expr(self, expr: DimExprLike | int) -> ir.Value:
